@@ -232,6 +232,16 @@ FEATURES = [
     (26, None, 'reserved == total accepted',
      ('PUT', RP1 + '/inventories/DISK_GB',
       dict(INV1, resource_provider_generation=3)), st(200)),
+    # granular requests (1.25): the summaries cover the classes of every
+    # request group, in whichever order the groups are written
+    (25, None, 'summaries list the classes of all request groups',
+     cand('resources=VCPU:1&resources1=DISK_GB:1'),
+     lambda r: r.status == 200 and {'VCPU', 'DISK_GB'} <= set(
+         r.json['provider_summaries'].get(U(1), {}).get('resources', {}))),
+    (25, None, 'summaries list the classes of all request groups (reversed)',
+     cand('resources1=VCPU:1&resources=DISK_GB:1'),
+     lambda r: r.status == 200 and {'VCPU', 'DISK_GB'} <= set(
+         r.json['provider_summaries'].get(U(1), {}).get('resources', {}))),
     (27, None, 'provider_summaries list every class',
      cand('resources=VCPU:1'),
      lambda r: r.status == 200 and 'DISK_GB' in
